@@ -1,14 +1,15 @@
 /-
   Model of pgdump/types.go (Oid constants, typeNames / TypeName, DecodeType dispatch, decodeScalar and
   all its helpers, safeString) and of the readers of pgdump/binary.go, as repaired by
-  /verif/fixes/scalars/01..12 (xid/cid unsigned, uuid byte order, timestamp arithmetic and
+  /verif/fixes/scalars/01..15 (xid/cid unsigned, uuid byte order, timestamp arithmetic and
   ±infinity, date ±infinity, timetz zone, interval signs, range bound alignment, short-input
   guard, path count guard, bit-string clamp, money in integer arithmetic, fractional seconds of
-  time / timetz / timestamp[tz] / interval).  One Lean function per Go function, same guards, same
+  time / timetz / timestamp[tz] / interval, path / polygon stored layout, numrange bounds).  One Lean function per Go function, same guards, same
   order of evaluation; every slice expression and index goes through the fault-aware primitives.
 
   Out of scope here and therefore parameters (`Ext`): decodeArray (area `arrays`), DecodeNumeric and
-  ParseJSONB (area `numjson`), `encoding/json.Unmarshal` (library).
+  ParseJSONB (area `numjson`), `encoding/json.Unmarshal` (library).  ReadVarlena (used by decodeNumericRange) is the
+  model of area `rows`, `Model.readVarlena`, imported as it is.
 
   Library calls and how they are modelled:
   * `fmt` integer / hex verbs: `Txt.decNat`, `Txt.decInt`, `Txt.fmt0d`, `Txt.hexNat`, `Txt.hexBytes`
@@ -30,6 +31,7 @@ import PgVerif.Basic.Canon
 import PgVerif.Types.Text
 import PgVerif.Types.FStr
 import PgVerif.Generated.Scalars
+import PgVerif.Model.Rows
 namespace PgVerif.Model.Scalars
 open PgVerif PgVerif.Txt
 
@@ -194,24 +196,52 @@ def decodePoint (data : Bytes) : M (List GoVal) := do
   let y ← u64 data 8
   return [lit "(", hole x, lit ",", hole y, lit ")"]
 
-/-- `for i := 0; i < npts; i++ { points[i] = decodePoint(data[5+i*16 : 5+(i+1)*16]) }` -/
-def pathPoints (data : Bytes) : Nat → Nat → M (List (List GoVal))
+/-- `for i := 0; i < npts; i++ { points[i] = decodePoint(data[first+i*16 : first+(i+1)*16]) }` -/
+def pathPoints (data : Bytes) (first : Nat) : Nat → Nat → M (List (List GoVal))
   | 0, _ => pure []
   | n+1, i => do
-    let s ← slice data (5 + i * 16) (5 + (i + 1) * 16)
+    let s ← slice data (first + i * 16) (first + (i + 1) * 16)
     let p ← decodePoint s
-    let rest ← pathPoints data n (i + 1)
+    let rest ← pathPoints data first n (i + 1)
     pure (p :: rest)
 
-def decodePathOrPolygon (data : Bytes) (oid : Nat) : M GoVal := do
-  if data.length < 5 then return .str []
-  let closed := (← idx data 0) != 0
-  let npts ← i32 data 1
-  if npts < 0 || (data.length : Int) < 5 + npts * 16 then return .str []
-  let pts ← pathPoints data npts.toNat 0
+/-- the header size of the stored layout: `first := 12; if oid == OidPolygon { first = 36 }` -/
+def storedFirst (oid : Nat) : Nat := if oid == OidPolygon then 36 else 12
+
+/-- the stored-layout attempt of decodePathOrPolygon (fix 14): `some (npts, closed)` when `len(data) >= first`,
+`n := int(i32(data, 0))` is `>= 0` and `len(data) == first + n*16`; `closed = oid == OidPath && i32(data, 4) != 0`
+(short-circuit: bytes 4..7 are read for a path only) -/
+def storedLayout (data : Bytes) (oid : Nat) : M (Option (Nat × Bool)) := do
+  let first := storedFirst oid
+  if data.length ≥ first then
+    let n ← i32 data 0
+    if n ≥ 0 ∧ (data.length : Int) = first + n * 16 then
+      if oid == OidPath then
+        let c ← i32 data 4
+        return some (n.toNat, c != 0)
+      else return some (n.toNat, false)
+    else return none
+  else return none
+
+/-- the output of decodePathOrPolygon once count, flag and the offset of the first point are known -/
+def pathOut (data : Bytes) (oid first npts : Nat) (closed : Bool) : M GoVal := do
+  let pts ← pathPoints data first npts 0
   let joined := joinPieces (lit ",") pts
   if oid == OidPolygon || closed then return fstr ([lit "("] ++ joined ++ [lit ")"])
   return fstr ([lit "["] ++ joined ++ [lit "]"])
+
+/-- types.go:decodePathOrPolygon (fix 14): the stored layout first (path: int32 npts, int32 closed, int32 dummy, points
+from 12; polygon: int32 npts, 32-byte bounding box, points from 36), recognised by `len == first + 16*npts`; otherwise the
+send/recv layout (flag byte, int32 npts, points from 5) as before -/
+def decodePathOrPolygon (data : Bytes) (oid : Nat) : M GoVal := do
+  match ← storedLayout data oid with
+  | some (npts, closed) => pathOut data oid (storedFirst oid) npts closed
+  | none =>
+    if data.length < 5 then return .str []
+    let closed := (← idx data 0) != 0
+    let npts ← i32 data 1
+    if npts < 0 || (data.length : Int) < 5 + npts * 16 then return .str []
+    pathOut data oid 5 npts.toNat closed
 
 /-- the loop of decodeBitString: bit `i` of the payload, MSB first; `byteIdx < len(data)` guarded -/
 def bitChars (data : Bytes) : Nat → Nat → Bytes
@@ -326,14 +356,6 @@ def decodeInet (data : Bytes) : M GoVal := do
       return .str addr
   return fallback
 
-def decodeNumericRange (flags : Nat) : GoVal :=
-  let lbInc := flags &&& 0x02 != 0
-  let ubInc := flags &&& 0x04 != 0
-  let lbInf := flags &&& 0x08 != 0
-  let ubInf := flags &&& 0x10 != 0
-  .str ([if lbInc then 91 else 40] ++ (if lbInf then [44] else [63, 44]) ++ (if ubInf then [] else [63]) ++
-    [if ubInc then 93 else 41])
-
 /-- Go `fmt.Sprintf("%v", x)` for the values a range bound decodes to (integers, strings, nil) -/
 def fmtV : GoVal → Bytes
   | .int i => decInt i
@@ -351,6 +373,49 @@ structure Ext where
   parseJSONB : Bytes → M GoVal
   /-- `encoding/json.Unmarshal` into `interface{}`: `none` = error -/
   jsonUnmarshal : Bytes → Option GoVal
+
+/-! ### decodeNumericRange (fix 15) -/
+
+/-- `fmt.Sprintf("%v", v)` of what DecodeNumeric returns, as pieces of a formatted string: a float64 is a `%g` hole (for
+a float64 `%v` is `%g`); Go `int(0)` (a numeric without digits) prints `0`, which the harness reads back as the number it
+denotes — the hole holding the float64 of the same value; a string is itself -/
+def numBoundPieces : GoVal → List GoVal
+  | .f64 b => [hole b]
+  | .int i => [hole (f64OfRat (decide (i < 0)) i.natAbs 1)]
+  | .str s => [.str s]
+  | _ => [lit "?"]
+
+/-- the closure `bound` of decodeNumericRange: the pieces of the bound's text and the offset afterwards.
+`if offset < end && data[offset] == 0 { offset = align(offset+4, 4) - 4 }` (a zero byte is padding in front of a 4-byte
+header: int alignment relative to the range's own 4-byte header); `offset >= end` → `?`;
+`ReadVarlena(data[offset:end])` nil → `?` (offset unchanged); else `offset += n`; `DecodeNumeric(val)` nil → `?`;
+else `%v` of it.  `end = len(data) - 1` (the caller guarantees `len(data) ≥ 5`). -/
+def numBound (ext : Ext) (data : Bytes) (offset : Nat) : M (List GoVal × Nat) := do
+  let end_ := data.length - 1
+  let offset ← (if offset < end_ then do
+      if (← idx data offset) == 0 then pure (align (offset + 4) 4 - 4) else pure offset
+    else pure offset)
+  if offset ≥ end_ then return ([lit "?"], offset)
+  let s ← slice data offset end_
+  let r ← PgVerif.Model.readVarlena s
+  match r.1 with
+  | none => return ([lit "?"], offset)
+  | some val =>
+    let offset := offset + r.2
+    match ← ext.decodeNumeric val with
+    | .nil => return ([lit "?"], offset)
+    | v => return (numBoundPieces v, offset)
+
+/-- types.go:decodeNumericRange (fix 15): bracket by the inclusive flags, each present bound read by `numBound` (lower
+first, from offset 4), nothing for an infinite bound -/
+def decodeNumericRange (ext : Ext) (data : Bytes) (flags : Nat) : M GoVal := do
+  let lbInc := flags &&& 0x02 != 0
+  let ubInc := flags &&& 0x04 != 0
+  let lbInf := flags &&& 0x08 != 0
+  let ubInf := flags &&& 0x10 != 0
+  let (lb, offset) ← (if lbInf then pure ([], 4) else numBound ext data 4)
+  let (ub, _) ← (if ubInf then pure ([], offset) else numBound ext data offset)
+  return fstrS ([lit (if lbInc then "[" else "(")] ++ lb ++ [lit ","] ++ ub ++ [lit (if ubInc then "]" else ")")])
 
 /-! ### decodeScalar / DecodeType
 
@@ -576,7 +641,7 @@ def decodeRange (ext : Ext) (data : Bytes) (oid : Nat) : M GoVal := do
   if data.length < 5 then return lit "empty"
   let flags := (← idx data (data.length - 1)).toNat
   if flags &&& 0x01 != 0 then return lit "empty"
-  if oid = OidNumRange then return decodeNumericRange flags
+  if oid = OidNumRange then return ← decodeNumericRange ext data flags
   match rangeElem oid with
   | none => return .str (asc "range:" ++ hexBytes data)
   | some (elemOid, elemSize) => decodeRangeFixed ext data flags elemOid elemSize
